@@ -21,7 +21,9 @@ RULE = ("one case = a history of up to 60 operations on a parameter tree (depth 
         "parameter map: construct a child (valid / invalid default / duplicate key / "
         "via parent= or add()), set_value (valid, wrong type, out of bounds, not an "
         "option, wrong quantity type, on read-only), get and remove by dotted key "
-        "relative to any enclosing map, model.set_parameter / get_parameter. Oracle: a "
+        "relative to any enclosing map, model.set_parameter / get_parameter / "
+        "add_parameter, an attached parameter offered to another map that holds that "
+        "key (refused). Oracle: a "
         "parameter-tree reference model; after every operation every node's value "
         "satisfies its predicate, default values never change, a rejected operation "
         "leaves value and tree unchanged (a failed constructor must not have registered "
